@@ -1,5 +1,13 @@
-"""Prototype reference Script interpreter (Core semantics, flags P2SH/NULLDUMMY/CLEANSTACK/DISCOURAGE)."""
+"""Reference Script interpreter: Bitcoin Core's EvalScript / VerifyScript semantics restricted to the four
+verification flags the library implements (P2SH, NULLDUMMY, CLEANSTACK, DISCOURAGE_UPGRADABLE_NOPS), written on plain
+bytes and lists.  Never imports bitcoin.*
+
+State of an evaluation = (stack, altstack, vfExec, nOpCount, codesep position); `run_prefix` evaluates a script without
+the end-of-script check so that explorers can compare intermediate states.
+"""
 import hashlib
+
+from .script import tokenize, BadPush, push_encode, num_decode as _num_decode, num_encode, find_and_delete
 
 MAX_SCRIPT_SIZE = 10000
 MAX_ELEM = 520
@@ -8,34 +16,20 @@ MAX_STACK = 1000
 
 P2SH, NULLDUMMY, CLEANSTACK, DISCOURAGE = 'P2SH', 'NULLDUMMY', 'CLEANSTACK', 'DISCOURAGE_UPGRADABLE_NOPS'
 
+DISABLED = {0x7e, 0x7f, 0x80, 0x81, 0x83, 0x84, 0x85, 0x86, 0x8d, 0x8e, 0x95, 0x96, 0x97, 0x98, 0x99}
+TRUE = b'\x01'
+FALSE = b''
+
+
 class Fail(Exception):
     pass
 
+
 def num_decode(b, maxlen=4):
     if len(b) > maxlen:
-        raise Fail('num overflow')
-    if not b:
-        return 0
-    v = int.from_bytes(b, 'little')
-    if b[-1] & 0x80:
-        v &= ~(0x80 << (8 * (len(b) - 1)))
-        return -v
-    return v
+        raise Fail('script number overflow')
+    return _num_decode(b)
 
-def num_encode(n):
-    if n == 0:
-        return b''
-    neg = n < 0
-    a = abs(n)
-    out = bytearray()
-    while a:
-        out.append(a & 0xff)
-        a >>= 8
-    if out[-1] & 0x80:
-        out.append(0x80 if neg else 0)
-    elif neg:
-        out[-1] |= 0x80
-    return bytes(out)
 
 def cast_bool(b):
     for i, c in enumerate(b):
@@ -45,105 +39,33 @@ def cast_bool(b):
             return True
     return False
 
-def tokenize(script):
-    """yield (opcode, data_or_None, start, end); raise Fail on malformed push"""
-    i = 0
-    n = len(script)
-    while i < n:
-        start = i
-        op = script[i]
-        i += 1
-        if op <= 0x4e:
-            if op < 0x4c:
-                size = op
-            elif op == 0x4c:
-                if n - i < 1:
-                    raise Fail('bad push')
-                size = script[i]
-                i += 1
-            elif op == 0x4d:
-                if n - i < 2:
-                    raise Fail('bad push')
-                size = int.from_bytes(script[i:i + 2], 'little')
-                i += 2
-            else:
-                if n - i < 4:
-                    raise Fail('bad push')
-                size = int.from_bytes(script[i:i + 4], 'little')
-                i += 4
-            if n - i < size:
-                raise Fail('bad push')
-            data = bytes(script[i:i + size])
-            i += size
-            yield op, data, start, i
-        else:
-            yield op, None, start, i
-
-def push_encode(d):
-    l = len(d)
-    if l < 0x4c:
-        return bytes([l]) + d
-    if l <= 0xff:
-        return b'\x4c' + bytes([l]) + d
-    if l <= 0xffff:
-        return b'\x4d' + l.to_bytes(2, 'little') + d
-    return b'\x4e' + l.to_bytes(4, 'little') + d
-
-def find_and_delete(script, pat):
-    """Core FindAndDelete: at each op boundary, skip all consecutive occurrences of pat."""
-    if not pat:
-        return script
-    out = bytearray()
-    n = len(script)
-    pc = 0
-    pc2 = 0
-    while True:
-        out += script[pc2:pc]
-        while n - pc >= len(pat) and script[pc:pc + len(pat)] == pat:
-            pc += len(pat)
-        pc2 = pc
-        # GetOp
-        if pc >= n:
-            break
-        op = script[pc]
-        j = pc + 1
-        ok = True
-        if op <= 0x4e:
-            if op < 0x4c:
-                size = op
-            elif op == 0x4c:
-                if n - j < 1: ok = False
-                else: size = script[j]; j += 1
-            elif op == 0x4d:
-                if n - j < 2: ok = False
-                else: size = int.from_bytes(script[j:j + 2], 'little'); j += 2
-            else:
-                if n - j < 4: ok = False
-                else: size = int.from_bytes(script[j:j + 4], 'little'); j += 4
-            if ok:
-                if n - j < size: ok = False
-                else: j += size
-        if not ok:
-            break
-        pc = j
-    out += script[pc2:]
-    return bytes(out)
-
-DISABLED = {0x7e, 0x7f, 0x80, 0x81, 0x83, 0x84, 0x85, 0x86, 0x8d, 0x8e, 0x95, 0x96, 0x97, 0x98, 0x99}
-TRUE = b'\x01'
-FALSE = b''
 
 def hash160(b):
     return hashlib.new('ripemd160', hashlib.sha256(b).digest()).digest()
 
-def eval_script(stack, script, flags=frozenset(), checksig=None):
-    """Mutates stack (list of bytes). Raises Fail."""
+
+class State:
+    __slots__ = ('stack', 'alt', 'vf', 'nop', 'codesep')
+
+    def __init__(self, stack):
+        self.stack = stack
+        self.alt = []
+        self.vf = []
+        self.nop = 0
+        self.codesep = 0
+
+    def snapshot(self):
+        return (tuple(self.stack), tuple(self.alt), tuple(self.vf), self.nop)
+
+
+def run_prefix(stack, script, flags=frozenset(), checksig=None):
+    """Execute every operation of script on stack (mutated).  Raises Fail; returns the State (no end-of-script
+    'unbalanced conditional' check)."""
+    script = bytes(script)
     if len(script) > MAX_SCRIPT_SIZE:
         raise Fail('script size')
-    alt = []
-    vf = []
-    nop = 0
-    codesep = 0
+    st = State(stack)
+    alt, vf = st.alt, st.vf
     end = len(script)
     it = tokenize(script)
     while True:
@@ -151,28 +73,30 @@ def eval_script(stack, script, flags=frozenset(), checksig=None):
             op, data, start, nxt = next(it)
         except StopIteration:
             break
+        except BadPush:
+            raise Fail('bad push')
         fexec = all(vf)
         if data is not None and len(data) > MAX_ELEM:
             raise Fail('push size')
         if op > 0x60:
-            nop += 1
-            if nop > MAX_OPS:
+            st.nop += 1
+            if st.nop > MAX_OPS:
                 raise Fail('op count')
         if op in DISABLED:
-            raise Fail('disabled')
+            raise Fail('disabled opcode')
         if fexec and op <= 0x4e:
             stack.append(data)
         elif fexec or (0x63 <= op <= 0x68):
             def need(n):
                 if len(stack) < n:
-                    raise Fail('stack')
+                    raise Fail('stack underflow')
             if op == 0x4f or 0x51 <= op <= 0x60:
                 stack.append(num_encode(op - 0x50))
             elif op == 0x61:
                 pass
             elif 0xb0 <= op <= 0xb9:
                 if DISCOURAGE in flags:
-                    raise Fail('discourage nops')
+                    raise Fail('discouraged upgradable NOP')
             elif op in (0x63, 0x64):
                 v = False
                 if fexec:
@@ -182,192 +106,285 @@ def eval_script(stack, script, flags=frozenset(), checksig=None):
                         v = not v
                 vf.append(v)
             elif op == 0x67:
-                if not vf: raise Fail('else')
+                if not vf:
+                    raise Fail('ELSE without IF')
                 vf[-1] = not vf[-1]
             elif op == 0x68:
-                if not vf: raise Fail('endif')
+                if not vf:
+                    raise Fail('ENDIF without IF')
                 vf.pop()
             elif op == 0x69:
                 need(1)
-                if cast_bool(stack[-1]): stack.pop()
-                else: raise Fail('verify')
+                if cast_bool(stack[-1]):
+                    stack.pop()
+                else:
+                    raise Fail('VERIFY')
             elif op == 0x6a:
-                raise Fail('return')
+                raise Fail('RETURN')
             elif op == 0x6b:
-                need(1); alt.append(stack.pop())
+                need(1)
+                alt.append(stack.pop())
             elif op == 0x6c:
-                if not alt: raise Fail('alt')
+                if not alt:
+                    raise Fail('altstack underflow')
                 stack.append(alt.pop())
             elif op == 0x6d:
-                need(2); stack.pop(); stack.pop()
+                need(2)
+                stack.pop()
+                stack.pop()
             elif op == 0x6e:
-                need(2); stack.extend([stack[-2], stack[-1]])
+                need(2)
+                stack.extend([stack[-2], stack[-1]])
             elif op == 0x6f:
-                need(3); stack.extend([stack[-3], stack[-2], stack[-1]])
+                need(3)
+                stack.extend([stack[-3], stack[-2], stack[-1]])
             elif op == 0x70:
-                need(4); stack.extend([stack[-4], stack[-3]])
+                need(4)
+                stack.extend([stack[-4], stack[-3]])
             elif op == 0x71:
-                need(6); a = stack[-6]; b = stack[-5]; del stack[-6:-4]; stack.extend([a, b])
+                need(6)
+                a, b = stack[-6], stack[-5]
+                del stack[-6:-4]
+                stack.extend([a, b])
             elif op == 0x72:
-                need(4); stack[-4], stack[-3], stack[-2], stack[-1] = stack[-2], stack[-1], stack[-4], stack[-3]
+                need(4)
+                stack[-4], stack[-3], stack[-2], stack[-1] = stack[-2], stack[-1], stack[-4], stack[-3]
             elif op == 0x73:
                 need(1)
-                if cast_bool(stack[-1]): stack.append(stack[-1])
+                if cast_bool(stack[-1]):
+                    stack.append(stack[-1])
             elif op == 0x74:
                 stack.append(num_encode(len(stack)))
             elif op == 0x75:
-                need(1); stack.pop()
+                need(1)
+                stack.pop()
             elif op == 0x76:
-                need(1); stack.append(stack[-1])
+                need(1)
+                stack.append(stack[-1])
             elif op == 0x77:
-                need(2); del stack[-2]
+                need(2)
+                del stack[-2]
             elif op == 0x78:
-                need(2); stack.append(stack[-2])
+                need(2)
+                stack.append(stack[-2])
             elif op in (0x79, 0x7a):
                 need(2)
-                n = num_decode(stack[-1]); stack.pop()
-                if n < 0 or n >= len(stack): raise Fail('pick range')
+                n = num_decode(stack[-1])
+                stack.pop()
+                if n < 0 or n >= len(stack):
+                    raise Fail('PICK/ROLL range')
                 v = stack[-n - 1]
-                if op == 0x7a: del stack[-n - 1]
+                if op == 0x7a:
+                    del stack[-n - 1]
                 stack.append(v)
             elif op == 0x7b:
-                need(3); stack[-3], stack[-2], stack[-1] = stack[-2], stack[-1], stack[-3]
+                need(3)
+                stack[-3], stack[-2], stack[-1] = stack[-2], stack[-1], stack[-3]
             elif op == 0x7c:
-                need(2); stack[-2], stack[-1] = stack[-1], stack[-2]
+                need(2)
+                stack[-2], stack[-1] = stack[-1], stack[-2]
             elif op == 0x7d:
-                need(2); stack.insert(len(stack) - 2, stack[-1])
+                need(2)
+                stack.insert(len(stack) - 2, stack[-1])
             elif op == 0x82:
-                need(1); stack.append(num_encode(len(stack[-1])))
+                need(1)
+                stack.append(num_encode(len(stack[-1])))
             elif op in (0x87, 0x88):
                 need(2)
                 eq = stack[-1] == stack[-2]
-                stack.pop(); stack.pop()
+                stack.pop()
+                stack.pop()
                 stack.append(TRUE if eq else FALSE)
                 if op == 0x88:
-                    if eq: stack.pop()
-                    else: raise Fail('equalverify')
+                    if eq:
+                        stack.pop()
+                    else:
+                        raise Fail('EQUALVERIFY')
             elif op in (0x8b, 0x8c, 0x8f, 0x90, 0x91, 0x92):
                 need(1)
                 bn = num_decode(stack[-1])
-                if op == 0x8b: bn += 1
-                elif op == 0x8c: bn -= 1
-                elif op == 0x8f: bn = -bn
-                elif op == 0x90: bn = abs(bn)
-                elif op == 0x91: bn = int(bn == 0)
-                elif op == 0x92: bn = int(bn != 0)
-                stack.pop(); stack.append(num_encode(bn))
+                if op == 0x8b:
+                    bn += 1
+                elif op == 0x8c:
+                    bn -= 1
+                elif op == 0x8f:
+                    bn = -bn
+                elif op == 0x90:
+                    bn = abs(bn)
+                elif op == 0x91:
+                    bn = int(bn == 0)
+                elif op == 0x92:
+                    bn = int(bn != 0)
+                stack.pop()
+                stack.append(num_encode(bn))
             elif op in (0x93, 0x94, 0x9a, 0x9b, 0x9c, 0x9d, 0x9e, 0x9f, 0xa0, 0xa1, 0xa2, 0xa3, 0xa4):
                 need(2)
-                a = num_decode(stack[-2]); b = num_decode(stack[-1])
-                if op == 0x93: r = a + b
-                elif op == 0x94: r = a - b
-                elif op == 0x9a: r = int(a != 0 and b != 0)
-                elif op == 0x9b: r = int(a != 0 or b != 0)
-                elif op in (0x9c, 0x9d): r = int(a == b)
-                elif op == 0x9e: r = int(a != b)
-                elif op == 0x9f: r = int(a < b)
-                elif op == 0xa0: r = int(a > b)
-                elif op == 0xa1: r = int(a <= b)
-                elif op == 0xa2: r = int(a >= b)
-                elif op == 0xa3: r = min(a, b)
-                elif op == 0xa4: r = max(a, b)
-                stack.pop(); stack.pop(); stack.append(num_encode(r))
+                a = num_decode(stack[-2])
+                b = num_decode(stack[-1])
+                if op == 0x93:
+                    r = a + b
+                elif op == 0x94:
+                    r = a - b
+                elif op == 0x9a:
+                    r = int(a != 0 and b != 0)
+                elif op == 0x9b:
+                    r = int(a != 0 or b != 0)
+                elif op in (0x9c, 0x9d):
+                    r = int(a == b)
+                elif op == 0x9e:
+                    r = int(a != b)
+                elif op == 0x9f:
+                    r = int(a < b)
+                elif op == 0xa0:
+                    r = int(a > b)
+                elif op == 0xa1:
+                    r = int(a <= b)
+                elif op == 0xa2:
+                    r = int(a >= b)
+                elif op == 0xa3:
+                    r = min(a, b)
+                else:
+                    r = max(a, b)
+                stack.pop()
+                stack.pop()
+                stack.append(num_encode(r))
                 if op == 0x9d:
-                    if cast_bool(stack[-1]): stack.pop()
-                    else: raise Fail('numequalverify')
+                    if cast_bool(stack[-1]):
+                        stack.pop()
+                    else:
+                        raise Fail('NUMEQUALVERIFY')
             elif op == 0xa5:
                 need(3)
-                a = num_decode(stack[-3]); lo = num_decode(stack[-2]); hi = num_decode(stack[-1])
-                stack.pop(); stack.pop(); stack.pop()
+                a = num_decode(stack[-3])
+                lo = num_decode(stack[-2])
+                hi = num_decode(stack[-1])
+                stack.pop()
+                stack.pop()
+                stack.pop()
                 stack.append(TRUE if lo <= a < hi else FALSE)
             elif op in (0xa6, 0xa7, 0xa8, 0xa9, 0xaa):
                 need(1)
                 v = stack.pop()
-                if op == 0xa6: h = hashlib.new('ripemd160', v).digest()
-                elif op == 0xa7: h = hashlib.sha1(v).digest()
-                elif op == 0xa8: h = hashlib.sha256(v).digest()
-                elif op == 0xa9: h = hash160(v)
-                else: h = hashlib.sha256(hashlib.sha256(v).digest()).digest()
+                if op == 0xa6:
+                    h = hashlib.new('ripemd160', v).digest()
+                elif op == 0xa7:
+                    h = hashlib.sha1(v).digest()
+                elif op == 0xa8:
+                    h = hashlib.sha256(v).digest()
+                elif op == 0xa9:
+                    h = hash160(v)
+                else:
+                    h = hashlib.sha256(hashlib.sha256(v).digest()).digest()
                 stack.append(h)
             elif op == 0xab:
-                codesep = nxt
+                st.codesep = nxt
             elif op in (0xac, 0xad):
                 need(2)
-                sig = stack[-2]; pub = stack[-1]
-                code = find_and_delete(bytes(script[codesep:end]), push_encode(sig))
+                sig = stack[-2]
+                pub = stack[-1]
+                code = find_and_delete(script[st.codesep:end], push_encode(sig))
                 ok = bool(checksig(sig, pub, code)) if checksig else False
-                stack.pop(); stack.pop()
+                stack.pop()
+                stack.pop()
                 stack.append(TRUE if ok else FALSE)
                 if op == 0xad:
-                    if ok: stack.pop()
-                    else: raise Fail('checksigverify')
+                    if ok:
+                        stack.pop()
+                    else:
+                        raise Fail('CHECKSIGVERIFY')
             elif op in (0xae, 0xaf):
                 i = 1
                 need(i)
                 nk = num_decode(stack[-i])
-                if nk < 0 or nk > 20: raise Fail('nkeys')
-                nop += nk
-                if nop > MAX_OPS: raise Fail('op count')
+                if nk < 0 or nk > 20:
+                    raise Fail('key count')
+                st.nop += nk
+                if st.nop > MAX_OPS:
+                    raise Fail('op count')
                 i += 1
                 ikey = i
                 i += nk
                 need(i)
                 ns = num_decode(stack[-i])
-                if ns < 0 or ns > nk: raise Fail('nsigs')
+                if ns < 0 or ns > nk:
+                    raise Fail('signature count')
                 i += 1
                 isig = i
                 i += ns
                 need(i)
-                code = bytes(script[codesep:end])
+                code = script[st.codesep:end]
                 for k in range(ns):
                     code = find_and_delete(code, push_encode(stack[-isig - k]))
                 ok = True
                 while ok and ns > 0:
-                    sig = stack[-isig]; pub = stack[-ikey]
+                    sig = stack[-isig]
+                    pub = stack[-ikey]
                     if checksig and checksig(sig, pub, code):
-                        isig += 1; ns -= 1
-                    ikey += 1; nk -= 1
-                    if ns > nk: ok = False
+                        isig += 1
+                        ns -= 1
+                    ikey += 1
+                    nk -= 1
+                    if ns > nk:
+                        ok = False
                 while i > 1:
-                    stack.pop(); i -= 1
+                    stack.pop()
+                    i -= 1
                 need(1)
-                if NULLDUMMY in flags and len(stack[-1]): raise Fail('nulldummy')
+                if NULLDUMMY in flags and len(stack[-1]):
+                    raise Fail('NULLDUMMY')
                 stack.pop()
                 stack.append(TRUE if ok else FALSE)
                 if op == 0xaf:
-                    if ok: stack.pop()
-                    else: raise Fail('cmsverify')
+                    if ok:
+                        stack.pop()
+                    else:
+                        raise Fail('CHECKMULTISIGVERIFY')
             else:
                 raise Fail('bad opcode')
         if len(stack) + len(alt) > MAX_STACK:
             raise Fail('stack size')
-    if vf:
-        raise Fail('unbalanced')
+    return st
+
+
+def eval_script(stack, script, flags=frozenset(), checksig=None):
+    st = run_prefix(stack, script, flags, checksig)
+    if st.vf:
+        raise Fail('unbalanced conditional')
+    return st
+
 
 def is_push_only(script):
     try:
         for op, d, s, e in tokenize(script):
-            if op > 0x60: return False
-    except Fail:
+            if op > 0x60:
+                return False
+    except BadPush:
         return False
     return True
+
 
 def is_p2sh(s):
     return len(s) == 23 and s[0] == 0xa9 and s[1] == 0x14 and s[22] == 0x87
 
+
 def verify_script(sig, pk, flags=frozenset(), checksig=None):
+    """Raises Fail unless the pair verifies.  Precondition (as in Core): CLEANSTACK implies P2SH."""
+    assert CLEANSTACK not in flags or P2SH in flags
     stack = []
     eval_script(stack, sig, flags, checksig)
     copy = list(stack) if P2SH in flags else None
     eval_script(stack, pk, flags, checksig)
-    if not stack or not cast_bool(stack[-1]): raise Fail('false')
+    if not stack or not cast_bool(stack[-1]):
+        raise Fail('false')
     if P2SH in flags and is_p2sh(pk):
-        if not is_push_only(sig): raise Fail('pushonly')
+        if not is_push_only(sig):
+            raise Fail('scriptSig not push-only')
         stack = copy
         assert stack
         pk2 = stack.pop()
         eval_script(stack, pk2, flags, checksig)
-        if not stack or not cast_bool(stack[-1]): raise Fail('false2')
+        if not stack or not cast_bool(stack[-1]):
+            raise Fail('false (redeem script)')
     if CLEANSTACK in flags:
-        assert P2SH in flags
-        if len(stack) != 1: raise Fail('cleanstack')
+        if len(stack) != 1:
+            raise Fail('cleanstack')
